@@ -30,6 +30,8 @@ inductive Cond where
   | and (a b : Cond)            -- `a && b`
   | or (a b : Cond)             -- `a || b`
   | not (c : Cond)              -- `!(c)`
+  | cmpE (op : COp) (e : GExpr) (b : Atom) (eLeft : Bool)   -- `(e) ⋈ b` / `b ⋈ (e)`, e a quiet tree (stage 12)
+  | truthE (e : GExpr)          -- `if (e)` for a quiet tree
   deriving Repr, DecidableEq, Inhabited
 
 inductive SStmt where
@@ -229,6 +231,31 @@ def genCondEx (g : GState) (l r : RA) (op : COp) (negate : Bool) (label : Lbl) :
     else cmpTest g .y right (finalOp op negate switch) label
   | (_, _, _) => ([], g)                              -- two registers: outside the fragment
 
+/-- the code of a tree whose value goes to the accumulator -/
+def treeOps (e : GExpr) : List (Mn × Option Atom) :=
+  match genE (none : Option Atom) (fun a => some a) {} e with
+  | some (c, .acc, _) => c
+  | _ => []
+
+def treeLines (e : GExpr) : List GLine := (treeOps e).map fun p => GLine.ins p.1 p.2
+
+/-- a tree against a memory operand or a constant: the tree's value is in A (left operand of the compare; the
+    operator is mirrored when the tree was written on the right); `== 0` / `!= 0` need no compare -/
+def cmpETest (g : GState) (op : COp) (e : GExpr) (b : Atom) (eLeft negate : Bool) (label : Lbl) : List GLine × GState :=
+  if RA.isZero (.of b) then
+    match finalOp op negate (!eLeft) with
+    | .ne => (treeLines e ++ [.br .BNE label], { g with flags := none })
+    | .eq => (treeLines e ++ [.br .BEQ label], { g with flags := none })
+    | _ => ([], g)
+  else
+    (treeLines e ++ [.ins .CMP (some b)] ++ (branchInstr { g with flags := none } (finalOp op negate (!eLeft)) label).1,
+     (branchInstr { g with flags := none } (finalOp op negate (!eLeft)) label).2)
+
+/-- `if (e)`: the flags describe A after an arithmetic operation, not after a shift (`CMP #0` then) -/
+def truthETest (g : GState) (e : GExpr) (negate : Bool) (label : Lbl) : List GLine × GState :=
+  (treeLines e ++ (if e.topArithm then [] else [.ins .CMP (some (.const 0))]) ++ [.br (if negate then .BEQ else .BNE) label],
+   { g with flags := none })
+
 /-- `generate_condition`: jump to `label` iff `c ≠ negate`; `if (v)` is `v != 0`, `if (!v)` is `v == 0`;
     `&&` / `||` evaluate left to right and stop early: in the direction where the first operand cannot
     decide alone they jump over the second test to an `.ifstart` label placed behind it -/
@@ -237,6 +264,8 @@ def genCond (g : GState) : Cond → Bool → Lbl → List GLine × GState
   | .truth v, negate, label => zeroTest g v (finalOp .ne negate false) label
   | .nottruth v, negate, label => zeroTest g v (finalOp .eq negate false) label
   | .not c, negate, label => genCond g c (!negate) label
+  | .cmpE op e b eLeft, negate, label => cmpETest g op e b eLeft negate label
+  | .truthE e, negate, label => truthETest g e negate label
   | .and a b, true, label =>
     let r1 := genCond g a true label
     let r2 := genCond r1.2 b true label
@@ -355,6 +384,8 @@ def CondOK : Cond → Bool
   | .and a b => CondOK a && CondOK b
   | .or a b => CondOK a && CondOK b
   | .not c => CondOK c
+  | .cmpE op e b _ => e.ok && quietE {} e && !(op.ordered && RA.isZero (.of b))
+  | .truthE e => e.ok && quietE {} e
   | _ => true
 
 def SInFragment : SStmt → Bool
@@ -405,6 +436,9 @@ def evalCond (L : Layout) (m : SrcSt) : Cond → Bool
   | .and a b => evalCond L m a && evalCond L m b
   | .or a b => evalCond L m a || evalCond L m b
   | .not c => !evalCond L m c
+  | .cmpE op e b eLeft =>
+    if eLeft then op.eval (treeVal L m e) (val L m.mem m.x m.y b) else op.eval (val L m.mem m.x m.y b) (treeVal L m e)
+  | .truthE e => treeVal L m e != 0
 
 /-- how a statement ends: normally, by `break`, by `continue` -/
 inductive Exit where | norm | brk | cont
